@@ -12,10 +12,12 @@
                         JSON-equal arguments (documented obligations of user code)
      cache_wf           shape of the registered records (what Cache guarantees)
      faithful_cache     every servable record of the previous build is a trace of its
-                        function (what the previous build guarantees; CoreLawsEx.v checks
-                        it on the records Core itself produces).  NOT covered: records in
-                        which only FAILED nested targets lie below a later/enclosing
-                        target (bf_end returns None) — label: partial for those caches
+                        function.  This is NOT an assumption for histories that start without
+                        a cache: C01_every_build_of_a_history_is_transparent (CoreNext*.v)
+                        proves that every build re-establishes it (in the deep form
+                        deep_cache), for any number of builds.  Exempt (cache_tame): records
+                        with a rejected attempt inside (never served anyway) and two shapes in
+                        which only FAILED nested targets lie below/above another target
      kp_init / kp_new   the METADATA assumption (size + mtime determine content) and
                         injectivity of the hash (the model's hash_of is injective)
    Core is tied to the implementation by exact correspondence (result, invocation log,
@@ -31,8 +33,8 @@ From FB.Gen Require Import JsonUtilGen.
 From FB.Spec Require Import Prog.
 From FB.Model Require Import Types Monad CreatedFiles SimpleOps Builder Persist Build Run Frame.
 From FB.Spec Require Import Ref Oracle Faithful.
-From FB.Model Require Import Core CoreOracle.
-From FB.Proofs Require Import ReplayLaws BuildFileLaws FrameLaws CleanLaws CoreLaws2 CoreLaws5 CoreLaws6 CoreLaws7.
+From FB.Model Require Import Core CoreOracle CoreCache.
+From FB.Proofs Require Import ReplayLaws BuildFileLaws FrameLaws CleanLaws CoreLaws2 CoreLaws5 CoreLaws6 CoreLaws7 CoreNextDefs CoreNextThm.
 Import ListNotations.
 
 Theorem C01_build_transparent : forall (kp : kappa) (F : ftable) fs cf old vers clock nextid root,
@@ -53,6 +55,19 @@ Theorem C01_run_transparent : forall kp F old vers clock0 pr,
     out = out_r /\ pend' = pend_r /\ sim s' r' /\ sublog (k_log s') (r_log r') /\
     KInv kp old vers clock0 s' /\ RInv' tgt r'.
 Proof. exact T1_full. Qed.
+
+(* ANY NUMBER OF BUILDS, starting without a cache: every build of the chain is transparent.  No
+   hypothesis about caches or the content oracle is left: chain_ok contains only the obligations of
+   user code (Obeys, Respects, RespectsS, WfArgs: names denote functions that do not distinguish
+   JSON-equal arguments; coherent: a function whose version is unchanged is unchanged), the exemption
+   cache_tame (decidable: cache_tameb; it excludes records with a rejected attempt inside and the
+   two shapes with failed targets below/above other targets that Spec/Faithful.v does not cover), and
+   the time/content assumption (clocks do not run backwards, no file is newer than the start of the
+   build: METADATA's size+mtime then determine content) - CoreNextThm.v *)
+Theorem C01_every_build_of_a_history_is_transparent : forall cf nm vers0 fs l F0,
+  (forall g, lookup fs cf <> Some (NFile g)) ->
+  chain_ok cf nm F0 0 fs (empty_cache nm vers0) l -> chain_transparent cf nm fs (empty_cache nm vers0) l.
+Proof. exact chain_from_empty. Qed.
 
 (* the hypotheses are satisfiable: a content oracle read off the tree, and a concrete instance
    (a previous cache, a tree on which the replay succeeds) *)
